@@ -547,14 +547,13 @@ example : (runFuel genTables (fun _ => true) 100 (init [91, 57381, 93]) []).1 = 
 
 /-- The grammar as regenerated from grammar.y (`Gen.mmProdRhs`) is the grammar of
 the parser tables: as many productions, every right-hand side as long as
-`mmR2` says, and two productions have the same left-hand side exactly when
-`mmR1` gives them the same nonterminal number. -/
+`mmR2` says, and left-hand side names and the nonterminal numbers of `mmR1`
+correspond one to one (`lhsPairs`: the distinct (name, number) pairs). -/
 theorem lr_productions_match_tables :
     Gen.mmProdRhs.length = NP genTables ∧
     ((List.range Gen.mmProdRhs.length).all fun n =>
       n == 0 || ((prodRhs n).length : Int) == (genTables.r2.get? n).getD (-1)) = true ∧
-    ((List.range Gen.mmProdRhs.length).all fun n => (List.range Gen.mmProdRhs.length).all fun k =>
-      (prodLhs n == prodLhs k) == (genTables.r1.get? n == genTables.r1.get? k)) = true := by decide +kernel
+    (lhsPairs.all fun p => lhsPairs.all fun q => (p.1 == q.1) == (p.2 == q.2)) = true := by decide +kernel
 
 /-- Regenerated obligation on the CONVERSION CALL SITES: the calls of parseInt /
 parseFloat / tryParseFloat32 / unquote in the actions of grammar.go now are
